@@ -32,8 +32,8 @@ Blocks     : Avro containers of SEVERAL blocks -- variant `blocks` (manifest lis
              measured, writer's default block size) -- with damage placed by BLOCK: for the first, second and last block
              (thorough: every block) the file cut in the middle of the block, everything from there on replaced by random
              bytes, the block's count byte flipped, and a stream that fails once the bytes before that point have been
-             delivered.  A streaming decoder has then handed out the records of the leading blocks (`prefix`) before it
-             raises; in the read-again sessions every read runs TWICE with the damage in place (after its own earlier
+             delivered.  A streaming decoder has then handed out the records of the leading blocks, and those of the
+             damaged block that precede the damage (`prefix`; also within a container of ONE block), before it raises; in the read-again sessions every read runs TWICE with the damage in place (after its own earlier
              raise and after every other API's) and once after it has cleared: a reader or handle that keeps what a
              failed decode had gathered returns a subset there.  Model/ReadBlocks.v (stream / collect over block
              decodings; C14_blocks_all_or_nothing, C14_bad_manifest_block_fails_closed, C14_decode_cache_transparent) is
@@ -2142,7 +2142,8 @@ def wide_commit_shape(path: str) -> List[Any]:
 
 def block_decoding(kind: str, b: bytes) -> Optional[List[Tuple[str, Any]]]:
     """The container split at its sync markers and every block decoded ON ITS OWN (header + that one block; what
-    follows the last marker is a block too): [("good", records) | ("bad", mro)].  None: no header, no container."""
+    follows the last marker is a block too): [("good", records) | ("bad", mro, records handed out before the raise)].
+    None: no header, no container."""
     bounds = avro_boundaries(b)
     if not bounds:
         return None
@@ -2153,7 +2154,23 @@ def block_decoding(kind: str, b: bytes) -> Optional[List[Tuple[str, Any]]]:
     out: List[Tuple[str, Any]] = []
     for piece in pieces:
         r = classify(kind, header + piece)
-        out.append(("good", r[1]) if r[0] == "ok" else ("bad", r[1]))
+        out.append(("good", r[1]) if r[0] == "ok" else ("bad", r[1], handed_out(kind, header + piece)))
+    return out
+
+
+def handed_out(kind: str, b: bytes) -> List[Any]:
+    """The records a streaming decode of b hands out before it raises (projected as the model's records)."""
+    import fastavro
+    out: List[Any] = []
+    try:
+        for r in fastavro.reader(io.BytesIO(b)):
+            if kind == "avro_list":
+                out.append(r["manifest_path"])
+            else:
+                df = r["data_file"]
+                out.append((df["file_path"], df["record_count"], df.get("checksum")))
+    except Exception:  # noqa: BLE001
+        pass
     return out
 
 
@@ -2169,7 +2186,7 @@ def corr_blocks(ctx, mc: "ModelCtx", strings: List[Tuple[str, bytes]], tag: str)
         if blocks is None:
             continue
         render = mc.paths if role == "list" else mc.dfiles
-        term = "[" + "; ".join(f"BGood {render(v)}" if g == "good" else f"BBad {mc.mro(v)}" for g, v in blocks) + "]"
+        term = "[" + "; ".join(f"BGood {render(x[1])}" if x[0] == "good" else f"BBad {render(x[2])} {mc.mro(x[1])}" for x in blocks) + "]"
         proj = "(fun x => x)" if role == "list" else "(fun d => (dpath d, dcount d, dsum d))"
         exprs.append(f"(match collect {term} with AvOk xs => (true, map {proj} xs) | AvRaise _ => (false, []) end, "
                      f"N.of_nat (List.length (fst (stream {term}))), N.of_nat (List.length {term}))")
